@@ -46,6 +46,8 @@ PREFIXES = (
     ((BS + '\n', 'Hash: SHA512\n', '\n', 'DATA s 1\n'), 'signed'),
     ((BS + '\n', '\n', 'DATA s 1\n', BG + '\n'), 'signature'),
     ((BS + '\n', '\n', 'DATA s 1\n', BG + '\n', 'iQEz\n', EG + '\n'), 'post'),
+    # a complete signed block whose cleartext holds no entry (a signed empty Manifest)
+    ((BS + '\n', '\n', '\n', BG + '\n', 'iQEz\n', EG + '\n'), 'post-empty'),
 )
 # canonical completions appended after the symbolic lines (or nothing)
 SUFFIXES = ((), ('\n', 'DATA t 2\n', BG + '\n', 'abcd\n', EG + '\n'),
